@@ -327,6 +327,7 @@ theorem nodup_keys_spread (acc : CallArgs) (v : V) (acc' : CallArgs)
   | atom a =>
     cases a <;> simp [spread] at hs <;> subst hs <;> exact h
   | list xs c => simp [spread] at hs; subst hs; exact h
+  | blist xs c => simp [spread] at hs; subst hs; exact h
   | map kv =>
     simp only [spread, Except.ok.injEq] at hs
     subst hs
